@@ -51,8 +51,43 @@ def site_oracle(ctx: Ctx, problem):
     ctx.dist["indirect_recovery>0" if sqh - th > eps else "indirect_recovery=0"] += 1
 
 
+def gen_glide_site(rng):
+    """A hot-oil / hot-water loop with a long glide whose target-temperature limit binds in one zone (load at the far
+    end of the glide plus a small load beyond its return temperature) while another zone raises or uses an
+    isothermal utility at a level inside the glide; little direct recovery. Mirrored for a gliding cold utility."""
+    dt = rng.choice([0.0, 5.0, 10.0])
+    t0 = float(rng.randrange(18, 30) * 10)
+    g_up, g_dn = float(rng.choice([40, 55, 80])), float(rng.choice([30, 45, 70]))
+    q1, q2, q3 = (float(rng.randrange(5, 50) * 100) for _ in range(3))
+    mirror = rng.random() < 0.4
+    m = (lambda t: 2 * t0 - t) if mirror else (lambda t: t)
+    H, C = ("Cold", "Hot") if mirror else ("Hot", "Cold")
+
+    def stream(zone, name, ts, tt, q):
+        return {"zone": zone, "name": name, "t_supply": m(ts), "t_target": m(tt), "heat_flow": q, "dt_cont": dt, "htc": 1.0}
+
+    def util(name, typ, ts, tt):
+        return {"name": name, "type": typ, "t_supply": m(ts), "t_target": m(tt), "heat_flow": 0.0, "dt_cont": dt, "htc": 1.0,
+                "price": float(rng.choice([10, 40, 100]))}
+    span = float(rng.choice([20, 40]))
+    streams = [stream("R", "far end", t0 + dt, t0 + dt + span, q1),
+               stream("R", "beyond", t0 - g_dn - 60 - rng.choice([0, 20]), t0 - g_dn - 10, q2),
+               stream("K", "level", t0 + dt, t0 + dt - rng.choice([5.0, 9.0, 20.0]), q3)]
+    if rng.random() < 0.3:
+        streams.append(stream(rng.choice(["R", "K", "L"]), "extra", t0 - 30, t0 - 80, float(rng.randrange(1, 20) * 100)))
+    lvl = t0 - 2 * dt - rng.choice([5.0, 15.0])
+    utils = [util("TOP", H, t0 + 120, t0 + 119 if rng.random() < 0.5 else t0 + 120),
+             util("LOOP", H, t0 + g_up + 2 * dt, t0 - g_dn),
+             util("GEN", C, lvl - 1, lvl),
+             util("BOT", C, t0 - g_dn - 160, t0 - g_dn - 155)]
+    rng.shuffle(utils)
+    return {"streams": streams, "utilities": utils, "options": {}}
+
+
 def gen_site_problem(rng):
     """1-4 process zones, ladders with intermediate levels that enable inter-zone recovery."""
+    if rng.random() < 0.15:
+        return gen_glide_site(rng)
     labels = rng.choice([["A"], ["A", "B"], ["A", "B", "C"], ["A", "B", "C", "D"], ["A/X", "A/Y", "B"]])
     pr = P.gen_problem(rng, labels=labels, util_kind=rng.choice(["none", "ladder", "ladder", "mixed", "outside"]))
     if pr["utilities"] and rng.random() < 0.3:
